@@ -7,6 +7,7 @@ oracle for all later repeats in a random interleaving; arguments are
 write-protected; frames are digested; np.empty is poisoned on random calls;
 pints.ParallelEvaluator (fork) versus pints.SequentialEvaluator.
 """
+import copy
 import numpy as np
 import pandas as pd
 import pints
@@ -70,6 +71,33 @@ def _ro(a):
     return a
 
 
+class ArgumentModified(Exception):
+    pass
+
+
+def _guarded(fn, first, *arrays, **kwargs):
+    """calls fn(first, *arrays, **kwargs) with WRITABLE copies of the other
+    array arguments (what a caller's own float64 buffers are) and reports a
+    callee that wrote into one of them"""
+    mine = [np.array(a) if isinstance(a, np.ndarray) else a for a in arrays]
+    kmine = dict((k, np.array(v) if isinstance(v, np.ndarray) else v)
+                 for k, v in kwargs.items())
+    res = fn(first, *mine, **kmine)
+    for pos, (a, b) in enumerate(zip(arrays, mine)):
+        if isinstance(a, np.ndarray) and not np.array_equal(
+                a, b, equal_nan=True):
+            raise ArgumentModified('positional argument %d of %s' % (
+                pos + 1, getattr(fn, '__name__', fn)))
+    for k, v in kwargs.items():
+        if isinstance(v, np.ndarray) and not np.array_equal(
+                v, kmine[k], equal_nan=True):
+            raise ArgumentModified('argument %s of %s' % (
+                k, getattr(fn, '__name__', fn)))
+    # (results that are views of the writable copies stay valid: the copies
+    # are not touched again)
+    return res
+
+
 def _freeze(result):
     """hashable / comparable snapshot of a result"""
     if isinstance(result, tuple):
@@ -101,7 +129,8 @@ def _equal(a, b):
 class World(object):
     """one user model family and the evaluation entry points"""
 
-    def __init__(self, rng, sbml, reduced_user_model=False):
+    def __init__(self, rng, sbml, reduced_user_model=False,
+                 reduced_user_em=False):
         self.sbml = sbml
         self.reduced_user_model = reduced_user_model
         self.entries = []        # (object name, call name, fn, args list)
@@ -133,6 +162,17 @@ class World(object):
         ems = sorted(D.ERROR_MODELS)
         self.em_names = [ems[int(rng.integers(4))] for _ in range(n_out)]
         self.user_ems = [getattr(chi, e)() for e in self.em_names]
+        # one of the user's error models may be a reduced model whose last
+        # parameter is fixed (e.g. a known assay noise): the object carries
+        # configuration that enters the density
+        self.reduced_em = None
+        if reduced_user_em:
+            o_ = int(rng.integers(n_out))
+            rem = chi.ReducedErrorModel(self.user_ems[o_])
+            self.reduced_em = (o_, rem.get_parameter_names()[-1])
+            rem.fix_parameters({self.reduced_em[1]: float(
+                rng.uniform(0.15, 0.4))})
+            self.user_ems[o_] = rem
         n_mech = um.n_parameters()
         if sbml:
             mech = rng.uniform(0.5, 1.5, n_mech)
@@ -141,8 +181,8 @@ class World(object):
             if reduced_user_model:
                 full = um.mechanistic_model().parameters()
                 mech = np.delete(mech, full.index(self.fixed_name))
-        err = np.concatenate([rng.uniform(0.15, 0.4, D.ERROR_MODELS[e][0])
-                              for e in self.em_names])
+        err = np.concatenate([rng.uniform(0.15, 0.4, em_.n_parameters())
+                              for em_ in self.user_ems])
         self.x_ind = np.concatenate([mech, err])
         n_ind = len(self.x_ind)
         # ---- individual likelihoods (siblings)
@@ -224,11 +264,15 @@ class World(object):
         # a fixed entry), each called with several parameter vectors
         for j in range(2):
             n2 = int(rng.integers(1, 4))
-            lv = GP.random_composition(rng, n2, max_parts=2, max_dim=2,
-                                       kinds='GLTP', p_cov=0.0)
+            with_cov = rng.random() < 0.4
+            lv = GP.random_composition(
+                rng, n2, max_parts=3 if with_cov else 2, max_dim=2,
+                kinds='GLTPH' if with_cov else 'GLTP',
+                p_cov=0.5 if with_cov else 0.0, cov_kinds='GLTPH')
             pmod = GP.build_chi(lv, n2)
             tp = np.concatenate([GP.leaf_top(rng, l, n2) for l in lv])
             nm = pmod.get_parameter_names()
+            n_cov2 = pmod.n_covariates()
             if rng.random() < 0.6 and len(set(nm)) == len(nm) and len(nm) > 1:
                 pmod = chi.ReducedPopulationModel(pmod)
                 jf = int(rng.integers(len(nm)))
@@ -238,20 +282,37 @@ class World(object):
             # (a rejected point for the scoring calls)
             tps_r = tps + [_ro(-np.abs(tp))]
             eta = _ro(rng.uniform(0.2, 0.9, size=(n2, pmod.n_dim())))
+            kw = {}
+            kw3 = {}
+            if n_cov2:
+                kw = {'covariates': _ro(rng.uniform(-1, 1, (n2, n_cov2)))}
+                kw3 = {'covariates': _ro(rng.uniform(-1, 1, (3, n_cov2)))}
             sd = [0, int(rng.integers(1, 1000))][int(rng.integers(2))]
             nme = 'popmodel%d' % j
             self.entries.append(
-                (nme, 'psi', lambda a, m=pmod, e=eta:
-                 m.compute_individual_parameters(a, e), tps))
+                (nme, 'psi', lambda a, m=pmod, e=eta, kw=kw:
+                 _guarded(m.compute_individual_parameters, a, e, **kw), tps))
+            # (the documented matrix of inter-individual fluctuations, owned
+            # and reused by the caller)
             self.entries.append(
-                (nme, 'sample', lambda a, m=pmod, sd=sd:
-                 m.sample(a, n_samples=3, seed=sd), tps))
+                (nme, 'psi_eta', lambda a, m=pmod, e=eta, kw=kw:
+                 _guarded(m.compute_individual_parameters, a, e,
+                          return_eta=True, **kw), tps))
             self.entries.append(
-                (nme, 'll', lambda a, m=pmod, e=eta:
-                 m.compute_log_likelihood(a, e), tps_r))
+                (nme, 'sample', lambda a, m=pmod, sd=sd, kw3=kw3:
+                 _guarded(m.sample, a, n_samples=3, seed=sd, **kw3), tps))
             self.entries.append(
-                (nme, 'S1', lambda a, m=pmod, e=eta:
-                 m.compute_sensitivities(a, e, reduce=True), tps_r))
+                (nme, 'll', lambda a, m=pmod, e=eta, kw=kw:
+                 _guarded(m.compute_log_likelihood, a, e, **kw), tps_r))
+            self.entries.append(
+                (nme, 'S1', lambda a, m=pmod, e=eta, kw=kw:
+                 _guarded(m.compute_sensitivities, a, e, reduce=True, **kw),
+                 tps_r))
+            self.entries.append(
+                (nme, 'S1_upstream', lambda a, m=pmod, e=eta, kw=kw:
+                 _guarded(m.compute_sensitivities, a, e,
+                          dlogp_dpsi=np.array(e) * 0.3, reduce=True, **kw),
+                 tps_r))
         # ---- population model on its own (shared with hl!)
         top = _ro(xv[h.n_bottom:])
         seed = [0, int(rng.integers(1, 1000))][int(rng.integers(2))]
@@ -298,7 +359,7 @@ class World(object):
             y = _ro(rng.uniform(1, 3, 3))
             npar = em.n_parameters()
             p = _ro(rng.uniform(0.2, 0.5, npar))
-            emc = getattr(chi, self.em_names[o])()
+            emc = copy.deepcopy(em)
             self.entries.append(
                 ('error_model%d' % o, 'll',
                  lambda a, em=emc, yb=ybar, y=y:
@@ -322,7 +383,16 @@ class World(object):
                          'Dose': 1.0 + i, 'Duration': 0.2})
         self.frame = pd.DataFrame(rows)
         self.frame_digest = self._digest(self.frame)
-        ctrl = chi.ProblemModellingController(um, self.user_ems)
+        # (the controller takes plain error models only)
+        ctrl = chi.ProblemModellingController(um, [
+            getattr(chi, e)() for e in self.em_names]
+            if self.reduced_em is not None else self.user_ems)
+        if self.reduced_em is not None:
+            # the same parameter fixed through the controller
+            o_ = self.reduced_em[0]
+            pos = n_mech + sum(D.ERROR_MODELS[e][0]
+                               for e in self.em_names[:o_ + 1]) - 1
+            ctrl.fix_parameters({ctrl.get_parameter_names()[pos]: 0.3})
         ctrl.set_data(self.frame)
         ctrl.set_log_prior(pints.ComposedLogPrior(*[
             pints.LogNormalLogPrior(0.0, 1.0) for _ in range(n_ind)]))
@@ -374,6 +444,14 @@ class World(object):
         if self.reduced_user_model and kind in ('route', 'rename_params'):
             kind = 'refix_user_model'
         try:
+            if kind == 'refix_user_model' and self.reduced_em is not None \
+                    and (not self.reduced_user_model or rng.random() < 0.5):
+                # the user re-uses their reduced error model with another
+                # fixed value (for the next individual, say)
+                o_, name_ = self.reduced_em
+                self.user_ems[o_].fix_parameters({name_: float(
+                    rng.uniform(0.5, 0.9))})
+                return 'refix_user_error_model'
             if kind == 'refix_user_model':
                 if not self.reduced_user_model:
                     return None
@@ -439,6 +517,12 @@ def run_history(ctx, rng, world, n_calls, feats, schedule=None):
             res = fn(arg)
         except Exception as e:      # noqa
             poison.set_on(False)
+            if isinstance(e, ArgumentModified):
+                ctx.violation('argument_unchanged',
+                              'argument_modified:%s.%s' % (
+                                  name.rstrip('0123456789'), call),
+                              {'which': str(e)}, feats)
+                return
             ctx.violation_exc('evaluation_raises', e,
                               {'object': name, 'call': call,
                                'poisoned': poisoned, 'history': kinds[-6:],
@@ -531,10 +615,13 @@ def run_history(ctx, rng, world, n_calls, feats, schedule=None):
 def history_case(ctx, rng, idx):
     sbml = idx % 3 == 0
     reduced_um = idx % 4 == 1
+    reduced_em = bool(rng.random() < 0.35)
     feats = {'family': 'history', 'sbml': sbml,
-             'reduced_user_model': reduced_um}
+             'reduced_user_model': reduced_um,
+             'reduced_user_error_model': reduced_em}
     try:
-        world = World(rng, sbml, reduced_user_model=reduced_um)
+        world = World(rng, sbml, reduced_user_model=reduced_um,
+                      reduced_user_em=reduced_em)
     except Exception as e:      # noqa
         ctx.violation_exc('setup_raises', e, {}, feats)
         return
